@@ -6,6 +6,7 @@ pub mod gv;
 pub mod msg;
 pub mod names;
 pub mod prng;
+pub mod sasl;
 pub mod sig;
 pub mod val;
 
